@@ -156,8 +156,14 @@ class World:
                 tok = dep["val0"][vi - 1][ei - 1]
                 if v["kind"] == "number":
                     fmt = FORMATS[(vi + ei) % len(FORMATS)]
+                    variant = (vi + 2 * ei) % 3         # how much the driver author declares: everything / the format only / nothing
+                    if variant == 0:
+                        kw.update(format=fmt, min=-1000, max=1000, step=0.25)
+                    elif variant == 1:
+                        kw.update(format=fmt)
+                    else:
+                        fmt = "%f"
                     self.fmt[(vi, ei)] = fmt
-                    kw.update(format=fmt, min=-1000, max=1000, step=0.25)
                 if v["kind"] == "switch":
                     ed = ELEM_CLASS["switch"](name, default=tok, **kw)
                 else:
